@@ -205,9 +205,19 @@ func init() {
 	noop := func(e *Engine, st *State, c *callCtx) bool { c.ret(st, nil); return true }
 	for _, n := range []string{"(*sync.Mutex).Lock", "(*sync.Mutex).Unlock", "(*sync.RWMutex).Lock", "(*sync.RWMutex).Unlock",
 		"(*sync.RWMutex).RLock", "(*sync.RWMutex).RUnlock", "(*sync.WaitGroup).Add", "(*sync.WaitGroup).Done", "(*sync.WaitGroup).Wait",
-		"(*sync.Pool).Put", "runtime.Gosched", "time.Sleep", "runtime.KeepAlive", "runtime.SetFinalizer"} {
+		"(*sync.Pool).Put", "runtime.Gosched", "runtime.KeepAlive", "runtime.SetFinalizer"} {
 		reg(n, noop)
 	}
+	reg("time.Sleep", func(e *Engine, st *State, c *callCtx) bool {
+		cur, ok := st.ghost["clock"].(*Term)
+		if !ok {
+			cur = KInt64(0)
+		}
+		d := c.term(0)
+		st.ghost["clock"] = e.name(Add(cur, Ite(Gt(d, KInt64(0)), d, KInt64(0))))
+		c.ret(st, nil)
+		return true
+	})
 	reg("(*sync.Mutex).TryLock", func(e *Engine, st *State, c *callCtx) bool { c.ret(st, tTrue); return true })
 	ptr := func(c *callCtx) PtrVal {
 		p, ok := c.args[0].(PtrVal)
